@@ -77,7 +77,11 @@ def h(term, ty, n, t, c, owners, counts, seq=False):
                  f'"a value was leaked or dropped twice (its drop counter is not 1 after the result was dropped)");\n')
     body += f"    kani::cover!(HS.next_id.load(AO::Relaxed) as usize >= {n});\n"
     if owners == "sym":
-        body += sched_covers(n, t)
+        if term in ("find", "first"):
+            # early exit: "one worker takes everything" need not be reachable
+            body += f"    kani::cover!(model::claimed_by(0) == {t - 1});\n"
+        else:
+            body += sched_covers(n, t)
     osfx = "sym" if owners == "sym" else ("d" if owners is None else "o" + "".join(str(x) for x in owners))
     name = cfg_name("c13", term, ty, f"n{n}", f"t{t}", f"c{c}", osfx, "k" + "".join(str(x) for x in counts))
     scalar = term in ("count", "reduce", "find", "first", "for_each")
@@ -110,22 +114,24 @@ def harnesses(tier, seed):
             hs.append(h(term, ty, 3, 2, 1, "sym", cv))
         hs.append(h("find", "M", 3, 2, 2, "sym", (1, 1, 1)))
     else:
+        light, heavy = [], []
         for ty in ("M", "F", "MF", "FM", "FMF", "FL", "FLF"):
-            for n, t, c in ((2, 2, 1), (3, 2, 1), (3, 2, 2)):
+            bucket = heavy if ty in ("FL", "FLF") else light
+            for n, t, c in ((2, 2, 1), (3, 2, 1), (3, 2, 2), (2, 2, 2)):
                 cvs = [cv for cv in count_vectors("FLF" if ty in ("FL", "FLF") else "MF" if ty != "M" else "M", n)]
                 if ty in ("FL", "FLF"):
                     cvs = [cv for cv in cvs if 0 not in cv or ty == "FL"][:9]
                 for owners in owner_tables(n, t, c):
                     for cv in cvs:
-                        for term in ("collect_vec", "collect_x", "collect_into_vec"):
-                            hs.append(h(term, ty, n, t, c, owners, cv))
-            hs.append(h("collect", ty, 2, 2, 1, [1, 0], (1, 1)))
-            hs.append(h("collect_into_split", ty, 2, 2, 1, [1, 0], (1, 1)))
-            hs.append(h("collect_vec", ty, 2, 1, 1, None, (1, 1)))
+                        for term in ("collect_vec", "collect_x", "collect_into_vec", "collect"):
+                            bucket.append(h(term, ty, n, t, c, owners, cv))
+            light.append(h("collect_into_split", ty, 3, 2, 1, [1, 0, 1], (1, 1, 1)))
+            light.append(h("collect_vec", ty, 2, 1, 1, None, (1, 1)))
             for term in ("find", "first", "count", "reduce", "for_each"):
                 for (n, t, c) in ((3, 2, 1), (3, 2, 2), (4, 2, 1)):
-                    hs.append(h(term, ty, n, t, c, "sym", tuple([1] * n)))
+                    heavy.append(h(term, ty, n, t, c, "sym", tuple([1] * n)))
         for term in ("find", "first"):
             for c in (1, 2):
-                hs.append(h(term, "E", 3, 2, c, "sym", (1, 1, 1)))
+                heavy.append(h(term, "E", 3, 2, c, "sym", (1, 1, 1)))
+        hs = cap(light, 500, seed) + cap(heavy, 80, seed)
     return hs
